@@ -253,6 +253,28 @@ def run(run, tier, seed):
                 recs.append([seq])
             return anc, recs
 
+        def linked_samples(ns, k):
+            """groups of two or three substitutions carried by the same samples, the members of a group k-2 .. k+1 (or half a
+            k-mer) apart - the k-mer that starts on one of them ends on the next - and the groups 3k apart"""
+            L = rng.randint(14 * k, 18 * k)
+            anc = gen.rand_seq(rng, L)
+            recs = [list(anc) for _ in range(ns)]
+            p, gi = 2 * k, 0
+            while p < L - 5 * k:
+                car = [rng.random() < 0.5 for _ in range(ns)]
+                if all(car) or not any(car):
+                    car[0] = not car[0]
+                gaps = [[k - 1], [k - 1, k - 1], [k], [k - 2], [(k - 1) // 2], [k - 1, k]][gi % 6]
+                q = p
+                for g in [0] + gaps:
+                    q += g
+                    alt = rng.choice([x for x in "ACGT" if x != anc[q]])
+                    for si in range(ns):
+                        if car[si]:
+                            recs[si][q] = alt
+                p, gi = q + 3 * k, gi + 1
+            return anc, [["".join(r)] for r in recs]
+
         sb = skacli.Sandbox("c11lo")
         try:
             nlo = 36 if tier == "quick" else 400
@@ -260,7 +282,9 @@ def run(run, tier, seed):
                 k = [15, 21, 31, 17, 11][li % 5]
                 ns = rng.randint(4, 8)
                 dense = li % 6 != 0
-                if dense:
+                if li % 6 == 3:
+                    anc, recs = linked_samples(ns, k)
+                elif dense:
                     anc, recs = dense_samples(ns, k)
                 else:
                     sc = derive.lo_snp_scenario(rng, k, ns, rng.randint(400, 700), rng.randint(3, 8))
